@@ -176,7 +176,7 @@ class HTTP(BaseComponent):
                 del self._clients[sock]
             res.done = True
             return
-        if res.stream and res.body:
+        if res.stream and res.body and hasattr(res.body, '__next__'):
             try:
                 data = next(res.body)
                 while not data:  # an empty chunk would end a chunked body
@@ -185,6 +185,8 @@ class HTTP(BaseComponent):
                 data = None
             self.fire(stream(res, data))
         else:
+            # (also with streaming switched on if there is nothing to pull
+            # chunks from: an empty body, a str, bytes or a list)
             if isinstance(res.body, bytes):
                 body = res.body
             elif isinstance(res.body, str):
@@ -208,13 +210,12 @@ class HTTP(BaseComponent):
             if res.chunked:
                 self.fire(write(sock, b'0\r\n\r\n'))
 
-            if not res.stream:
-                if res.close:
-                    self.fire(close(sock))
-                # Delete the request/response objects if present
-                if sock in self._clients:
-                    del self._clients[sock]
-                res.done = True
+            if res.close:
+                self.fire(close(sock))
+            # Delete the request/response objects if present
+            if sock in self._clients:
+                del self._clients[sock]
+            res.done = True
 
     @handler('disconnect')
     def _on_disconnect(self, sock):
